@@ -262,7 +262,7 @@ def _tables() -> dict:
     out["errors"] = []
     for m_, q, want in ((mod, "DataType.itemsize", "return self.bitwidth / 8"),
                         (mod, "DataType.is_string", "return self == DataType.STRING"),
-                        (core, "TensorBase.nbytes", "return math.ceil(self.dtype.itemsize * self.size)")):
+                        (core, "TensorBase.nbytes", "return (self.dtype.bitwidth * self.size + 7) // 8")):
         try:
             _is_expr(T.find_function(m_, q), want)
         except T.Unsupported as e:
@@ -331,8 +331,10 @@ def gen_text() -> str:
     L.append("\n(* ENVIRONMENT (measured from the installed numpy/ml_dtypes, not from onnx_ir): itemsize in bytes of each key above *)")
     L.append("Definition np_itemsize_env : list (list N * N) :=\n  [" + ";\n   ".join(
         f"({_codes(k)}, {v}%N) (* {k} *)" for k, v in t["np_itemsize_env"]) + "].")
-    L.append("\n(* DataType.itemsize is `self.bitwidth / 8`; TensorBase.nbytes is `math.ceil(self.dtype.itemsize * self.size)` (shape-checked) *)")
+    L.append("\n(* DataType.itemsize is `self.bitwidth / 8` (shape-checked) *)")
     L.append("Definition itemsize_divisor : N := 8%N.")
+    L.append("(* translated from _core.py::TensorBase.nbytes  `return (self.dtype.bitwidth * self.size + 7) // 8` (shape-checked) *)")
+    L.append("Definition nbytes_code (bw size : N) : N := (bw * size + 7) / 8.")
     for key, doc in [("floating", "DataType.is_floating_point"), ("integer", "DataType.is_integer"),
                      ("signed", "DataType.is_signed"), ("non_native", "_core._NON_NUMPY_NATIVE_TYPES"),
                      ("bytes_pack4", "_core._create_np_array_for_byte_representation, first set (pack_4bitx2)"),
